@@ -53,6 +53,12 @@ func GenerateWithdrawalHash(bridgeId uint64, l2Sequence uint64, sender string, r
 
 func GenerateNodeHash(a, b []byte) [32]byte {
 	var data [32]byte
+
+	// copy the inputs so that the appends below never write into the caller's backing
+	// arrays (e.g. proofs that are sub-slices of one buffer or have spare capacity).
+	a = append(make([]byte, 0, len(a)+len(b)), a...)
+	b = append(make([]byte, 0, len(a)+len(b)), b...)
+
 	switch bytes.Compare(a, b) {
 	case 0, 1: // equal or greater
 		data = sha3.Sum256(append(b, a...))
